@@ -136,3 +136,32 @@ def check_typed_identity(ck, rule, modules):
                 ck.ob(rule, cfi.qual + "::cached", False, "%s itself is wrapped in an equality-keyed cache" % cfi.qual, A.loc(cfi, cfi.node))
     ck.ob(rule, "typed-identity::scan", True, "%d value-carrying functions scanned in %s; %d equality-keyed caches in the package (%s)"
           % (sum(1 for q in VALUE_PARAMS if q.split(".")[0] in modules), list(modules), sum(len(v) for v in cached.values()), sorted(c.qual for v in cached.values() for c in v)), "")
+
+
+def check_json_bytes(ck, rule, quals):
+    """JSON text that is then encoded with the strict UTF-8 codec must be produced with
+    ensure_ascii (the default): with ensure_ascii=False a lone surrogate in the text (file names
+    decoded with surrogateescape) makes .encode('utf-8') raise UnicodeEncodeError."""
+    for q in quals:
+        fi = ck.repo.try_func(q)
+        if fi is None:
+            continue
+        fa = FA(ck, fi)
+        for c in fa.calls("dumps"):
+            ea = A.kwarg(c, "ensure_ascii")
+            bad = ea is not None and A.norm(ea) != "True"
+            ck.ob(rule, fa.key(None, "json-ascii-safe"), not bad, "JSON is written ASCII-safe before UTF-8 encoding" if not bad else
+                  "json.dumps(..., ensure_ascii=%s) followed by .encode('utf-8'): text with a lone surrogate (e.g. an exception message or argument "
+                  "built from a non-UTF-8 file name) raises UnicodeEncodeError while memoizing, so the result is never recorded" % A.norm(ea), fa.where(c))
+
+
+def check_enum_distinct(ck, rule):
+    """Enum members with equal values are aliases: `.name` of the second is the first's name."""
+    rt = ck.repo.cls("metadata.ResultType")
+    vals = {}
+    for st in rt.node.body:
+        if isinstance(st, ast.Assign) and len(st.targets) == 1 and isinstance(st.targets[0], ast.Name):
+            vals.setdefault(A.norm(st.value), []).append(st.targets[0].id)
+    dup = {v: ns for v, ns in vals.items() if len(ns) > 1}
+    ck.ob(rule, rt.qual + "::distinct-values", not dup, "%d ResultType members have pairwise distinct values" % len(vals) if not dup else
+          "ResultType members share a value %s: the later ones are aliases, so their `.name` (what is recorded) is the first one's" % dup, A.loc(rt, rt.node))
